@@ -480,7 +480,14 @@ func checkOutput(st *Stats, kind string, src string, c *cfg, r result) verdict {
 		}
 		v.leaks = append(v.leaks, f)
 		input := map[string]interface{}{"kind": kind, "source": src, "config": c, "scenario": scenarioFor(f, c, notes, r.code)}
-		failOnce(st, "syntax-leak:"+f, input,
+		what := "syntax-leak:" + f
+		if c.Loader == "" && !contains(Detect(src), f) {
+			// the input does not use the feature at all: esbuild's own rewrite (minifier,
+			// generated code) introduced syntax the target does not have
+			what = "syntax-introduced:" + f
+			input["input_features"] = Detect(src)
+		}
+		failOnce(st, what, input,
 			map[string]interface{}{"output": clip(r.code, 1500), "detected": v.detected, "warnings": msgTexts(r.warnings)},
 			"no "+f+" syntax in the output for this target")
 	}
@@ -847,7 +854,7 @@ func (c *cfg) makeCoherent() {
 func runC14(seed uint64, n int, tier string, outDir string) []*Stats {
 	r := NewRng(seed)
 	st := NewStats("c14", seed)
-	cf := NewCoqFile("From V Require Import Common.Base C14.Compat C14.Spec C14.LowerGraph C14.Css C14.Harness.")
+	cf := NewCoqFile("From V Require Import Common.Base C14.Compat C14.Spec C14.LowerGraph C14.Css C14.Sites C14.Harness.")
 
 	tableCases(r, st, cf, n)
 	selfTest(st)
